@@ -277,6 +277,22 @@ def other_paths(chk):
             if not same_frame(cv, cv0):
                 chk.violation('downstream calculation modified the curves', {}, part='downstream')
             chk.nontrivial(('downstream', 'woehler-pf'))
+            # calculations built on the scalar path of the broadcast: the signal's own frame is handed back, so the calculation must not write into it
+            import pylife.stress.collective  # noqa
+            lc_df = pd.DataFrame({'from': [1.0, 2.0], 'to': [3.0, 5.0]}, index=pd.Index([4, 9], name='element_id'))
+            lc0 = lc_df.copy(deep=True)
+            for opname, operand in (('scale', 2.0), ('shift', 1.5), ('scale', pd.Series([2.0, 3.0], index=pd.Index([4, 9], name='element_id'))), ('shift', pd.Series([1.0, 2.0], index=pd.Index(['a', 'b'], name='scenario')))):
+                chk.evals(1)
+                res = getattr(lc_df.load_collective, opname)(operand)
+                if not same_frame(lc_df, lc0):
+                    chk.violation('LoadCollective.%s(%s) modified the collective it was called on' % (opname, 'scalar' if np.isscalar(operand) else 'Series'), {'operation': opname}, lc0.to_dict(), lc_df.to_dict(), part='downstream')
+                    lc_df = lc0.copy(deep=True)
+                want = (2.0 if np.isscalar(operand) else None)
+                if np.isscalar(operand):
+                    exp = lc0[['from', 'to']] * operand if opname == 'scale' else lc0[['from', 'to']] + operand
+                    if not np.allclose(res.to_pandas()[['from', 'to']].to_numpy(), exp.to_numpy(), rtol=0, atol=0):
+                        chk.violation('LoadCollective.%s(scalar) returns wrong from/to values' % opname, {}, exp.to_numpy().tolist(), res.to_pandas()[['from', 'to']].to_numpy().tolist(), part='downstream')
+            chk.nontrivial(('downstream', 'collective-scale-shift-non-mutation'))
             # mean stress sensitivities per (element_id, material) (a two-level index) against collectives per cycle / per (element_id, cycle)
             import pylife.strength.meanstress as MST
             sens = pd.DataFrame({'M': [0.3, 0.5, 0.2, 0.4], 'M2': [0.1, 0.5, 0.0, 0.2]},
